@@ -97,7 +97,7 @@ func c04ReturnsError(body *ast.BlockStmt) bool {
 }
 
 func extractC04() *lean {
-	l := newLean("C04", "NutsModel.C04.Token", "NutsModel.C04.Uuid")
+	l := newLean("C04", "NutsModel.C04.Token", "NutsModel.C04.Uuid", "NutsModel.C04.SshKey")
 	l.sb.WriteString("open Nuts.C04\n")
 
 	// ---------------- http/engine.go
